@@ -127,6 +127,7 @@ pub fn verdicts(args: &Args) -> Report {
     let out_path = args.get("verdict-out", "");
     let programs: Vec<&str> = input.split("\n\u{1e}\n").collect();
     let emit = args.num("emit", 1) == 1;
+    let all_diags = args.num("all-diags", 0) == 1;
     let results: std::sync::Mutex<Vec<(usize, String)>> = std::sync::Mutex::new(Vec::new());
     let mut rep = pool::run_space(
         programs.len() as u64,
@@ -141,7 +142,11 @@ pub fn verdicts(args: &Args) -> Report {
                 let n = sa.diag.borrow().errors().len();
                 let msg = if n > 0 {
                     let rendered = sa.diag.borrow_mut().dump_to_string(&sa, false);
-                    rendered.lines().next().unwrap_or("").to_string()
+                    if all_diags {
+                        rendered.replace('\n', "\u{1f}")
+                    } else {
+                        rendered.lines().next().unwrap_or("").to_string()
+                    }
                 } else {
                     String::new()
                 };
